@@ -19,7 +19,13 @@
 //!   same depth equal maxima in all channels (RGB<->BGR): channels unchanged
 //!   binary     gray -> binary: On iff 2*luma >= MAX+1; RGB -> binary: On iff Gray8::from(c).luma() >= 128
 //!              (this one takes the luma from the library, so it checks the threshold, not the luma)
-//!   luma       RGB -> gray / binary against an INDEPENDENT exact ITU-R BT.601 luma, computed here in
+//!   rgb->gray  (text: "the representable value nearest to the exactly scaled one") the result is the library's own
+//!              8-bit luma of the source (`Into<Gray8>`) scaled to the target's range to the nearest value
+//!              (class C13:rgb-gray-not-nearest-to-scaled-luma); with extremes and monotone this is all the text says
+//!              of RGB -> gray: it names no weights.
+//!   luma       NOT the text, a TIE (classes `C13:tie-hypothesis:rgb-gray-luma-is-bt601`,
+//!              `C13:tie-hypothesis:rgb-binary-luma-is-bt601`: a failure is reported as a broken tie without failing
+//!              input): RGB -> gray / binary against an INDEPENDENT exact ITU-R BT.601 luma, computed here in
 //!              integers and never through the library: r8 g8 b8 = each source channel scaled to 0..=255
 //!              to the nearest integer (never a tie), S = 299 r8 + 587 g8 + 114 b8 = 1000 x the exact luma Y.
 //!              RGB -> Gray8: |out - Y| <= 1;  RGB -> Gray4/Gray2 (T = 15/3): |out - Y*T/255| <= 1/2 + T/255
@@ -30,7 +36,7 @@
 //!              coefficients rounded to 1/256 (error of the weighted sum <= 255 * 456/256000 = 0.4542) and one
 //!              rounding to an integer (<= 1/2): 0.9542 < 1, proved for the model as `C13.luma_close_bt601`,
 //!              `rgb_gray_close`, `rgb_gray_within`, `rgb_binary_close`. Exchanged or changed weights (e.g.
-//!              77 <-> 150: pure red gives 149 instead of 76.2) fail this.
+//!              77 <-> 150: pure red gives 149 instead of 76.2) break this tie (and the correspondence).
 use crate::common::*;
 use crate::m_color::{CT, GRAY_TYPES, RGB_TYPES};
 use embedded_graphics::pixelcolor::*;
@@ -128,15 +134,24 @@ where
             }
         }
         3 => {
-            // RGB -> gray: close to the exact BT.601 luma of the source, scaled to the target's range
-            let s1000 = bt601_milli(&sch, &fmax);
+            // RGB -> gray. The text names no luma weights: what it says of this conversion is black / white / monotone
+            // (checked above and below for every pair) and "the representable value nearest to the exactly scaled one",
+            // i.e. the result is the library's own 8-bit luma of the source (`Into<Gray8>`) scaled to the target's range:
+            let g8: Gray8 = src.into();
             let (t, out) = (tmax[0] as i64, dch[0] as i64);
+            ctx.expect(nearest(g8.luma(), 255, tmax[0], dch[0]), "C13:rgb-gray-not-nearest-to-scaled-luma", || {
+                format!("{}->{} {:?}: luma {} of {}, but the 8-bit luma of the source is {}", A::NAME, B::NAME, src, out, t, g8.luma())
+            });
+            // NOT the text: that this luma is the BT.601 one (what `luma_weights_bt601` / `rgb_gray_close` prove of the
+            // model's weights 77/150/29 : 256) is validated on the real code as a tie (a failure is a broken tie, not a
+            // failing input): close to the exact BT.601 luma of the source, scaled to the target's range
+            let s1000 = bt601_milli(&sch, &fmax);
             let ok = if t == 255 {
                 (1000 * out - s1000).abs() <= 1000
             } else {
                 (510_000 * out - 2 * t * s1000).abs() <= 255_000 + 2000 * t
             };
-            ctx.expect(ok, "C13:rgb-gray-not-bt601", || {
+            ctx.expect(ok, "C13:tie-hypothesis:rgb-gray-luma-is-bt601", || {
                 format!("{}->{} {:?}: luma {} of {}, exact BT.601 luma of the 8-bit channels {}/1000", A::NAME, B::NAME, src, out, t, s1000)
             });
             // how many results are the value nearest to the exact scaled luma (the others are one off)
@@ -190,15 +205,16 @@ where
         let g: Gray8 = src.into();
         let on = g.luma() >= 128;
         ctx.expect((dch[0] == 1) == on, "C13:rgb-binary-threshold", || format!("{} {:?} luma {} -> {:?}", A::NAME, src, g.luma(), dst));
-        // independent of the library's luma: On exactly for the upper half of the luma range, the luma
-        // being the exact BT.601 one to within one 8-bit step
+        // NOT the text (it names no weights; the clause "On exactly for the upper half of the luma range" is the class
+        // above, on the library's own luma): that the luma is the exact BT.601 one to within one 8-bit step, validated as
+        // a tie (`rgb_binary_close` proves it of the model)
         let s1000 = bt601_milli(&sch, &fmax);
         if s1000 >= 129_000 {
             ctx.count("rgb-binary:exact-luma-upper-half");
-            ctx.expect(dch[0] == 1, "C13:rgb-binary-not-bt601-half", || format!("{} {:?} exact luma {}/1000 -> {:?}", A::NAME, src, s1000, dst));
+            ctx.expect(dch[0] == 1, "C13:tie-hypothesis:rgb-binary-luma-is-bt601", || format!("{} {:?} exact luma {}/1000 -> {:?}", A::NAME, src, s1000, dst));
         } else if s1000 < 127_000 {
             ctx.count("rgb-binary:exact-luma-lower-half");
-            ctx.expect(dch[0] == 0, "C13:rgb-binary-not-bt601-half", || format!("{} {:?} exact luma {}/1000 -> {:?}", A::NAME, src, s1000, dst));
+            ctx.expect(dch[0] == 0, "C13:tie-hypothesis:rgb-binary-luma-is-bt601", || format!("{} {:?} exact luma {}/1000 -> {:?}", A::NAME, src, s1000, dst));
         } else {
             ctx.count("rgb-binary:exact-luma-within-one-step-of-128");
         }
